@@ -344,6 +344,8 @@ pub struct Inst {
     pub svc: GraphDatabaseService,
     pub me: Vec<u8>,
     pub room: Uid,
+    /// a second room with the same rights; in the C13 op files a day `100 + d` means "day d of room 2"
+    pub room2: Uid,
     pub peer: Ed25519SigningKey,
     pub folder: PathBuf,
     pub secret: [u8; 32],
@@ -385,6 +387,7 @@ impl Inst {
             svc,
             me,
             room: [0u8; 16],
+            room2: [0u8; 16],
             peer: peer_key(),
             folder,
             secret,
@@ -407,6 +410,8 @@ impl Inst {
                 let t: Vec<&str> = l.split(' ').collect();
                 if t.len() == 2 && t[0] == "room" {
                     inst.room = vh::security::uid_decode(t[1]).unwrap();
+                } else if t.len() == 2 && t[0] == "room2" {
+                    inst.room2 = vh::security::uid_decode(t[1]).unwrap();
                 } else if t.len() == 3 && t[0] == "tpl" {
                     inst.entity_short = t[1].to_string();
                     inst.template_json =
@@ -441,7 +446,24 @@ impl Inst {
         t
     }
 
-    /// room with two users (this instance and the peer key), row k0, a recompute
+    pub fn room_of(&self, idx: i64) -> Uid {
+        if idx == 0 {
+            self.room
+        } else {
+            self.room2
+        }
+    }
+    pub fn room_idx(&self, r: &Uid) -> i64 {
+        if *r == self.room {
+            0
+        } else if *r == self.room2 {
+            1
+        } else {
+            9
+        }
+    }
+
+    /// two rooms with two users each (this instance and the peer key), row k0 in room 1, a recompute
     pub async fn setup(&mut self) -> Result<(), String> {
         self.set_clock(0);
         let mut p = Parameters::default();
@@ -466,6 +488,29 @@ impl Inst {
             .map_err(|e| format!("room creation: {:?}", e))?;
         self.room = q.mutate_entities[0].node_to_mutate.id;
         self.remember(format!("room {}", uid_encode(&self.room)));
+        self.set_clock(0);
+        let mut p = Parameters::default();
+        p.add("me", base64_encode(&self.me)).unwrap();
+        p.add("peer", base64_encode(&self.peer.export_verifying_key())).unwrap();
+        let q = self
+            .svc
+            .mutate_raw(
+                r#"mutate {
+                sys.Room{
+                    admin: [{ verif_key:$me }]
+                    authorisations:[{
+                        name:"second"
+                        rights:[{ entity:"Item" mutate_self:true mutate_all:true }]
+                        users:[{ verif_key:$me },{ verif_key:$peer }]
+                    }]
+                }
+            }"#,
+                Some(p),
+            )
+            .await
+            .map_err(|e| format!("room 2 creation: {:?}", e))?;
+        self.room2 = q.mutate_entities[0].node_to_mutate.id;
+        self.remember(format!("room2 {}", uid_encode(&self.room2)));
         self.set_clock(0);
         let mut p = Parameters::default();
         p.add("room", uid_encode(&self.room)).unwrap();
@@ -568,10 +613,10 @@ impl Inst {
         match kind {
             "pm" | "ps" => {
                 let day: i64 = parts[1].parse().map_err(|_| "day")?;
-                self.set_clock(day);
+                self.set_clock(day % 100);
                 let mut text = String::from("mutate {\n");
                 let mut p = Parameters::default();
-                p.add("room", uid_encode(&self.room)).unwrap();
+                p.add("room", uid_encode(&self.room_of(day / 100))).unwrap();
                 for (n, kv) in parts[2].split('+').enumerate() {
                     let (k, v) = kv.split_once('-').ok_or("kv")?;
                     let k: u64 = k.parse().map_err(|_| "key")?;
@@ -580,7 +625,7 @@ impl Inst {
                         Some(id) => {
                             p.add(&format!("id{}", n), uid_encode(id)).unwrap();
                             text.push_str(&format!(
-                                "  a{}: Item {{ id:$id{} val:\"v{}\" }}\n",
+                                "  a{}: Item {{ id:$id{} room_id:$room val:\"v{}\" }}\n",
                                 n, n, v
                             ));
                         }
@@ -608,7 +653,8 @@ impl Inst {
             "pn" => {
                 // rows written by the peer, received through synchronisation
                 let day: i64 = parts[1].parse().map_err(|_| "day")?;
-                let t = self.set_clock(day);
+                let t = self.set_clock(day % 100);
+                let room = self.room_of(day / 100);
                 let mut nodes = vec![];
                 for kv in parts[2].split('+') {
                     let (k, v) = kv.split_once('-').ok_or("kv")?;
@@ -620,7 +666,7 @@ impl Inst {
                     id[15] = 1;
                     let mut node = Node {
                         id,
-                        room_id: Some(self.room),
+                        room_id: Some(room),
                         cdate: t,
                         mdate: t,
                         _entity: self.entity_short.clone(),
@@ -639,13 +685,13 @@ impl Inst {
                 let _ = self
                     .svc
                     .sender
-                    .send(DbMessage::AddNodes(self.room, nodes, tx))
+                    .send(DbMessage::AddNodes(room, nodes, tx))
                     .await;
                 Ok(Reply::Uids(rx))
             }
             "dl" => {
                 let day: i64 = parts[1].parse().map_err(|_| "day")?;
-                self.set_clock(day);
+                self.set_clock(day % 100);
                 let mut text = String::from("delete {\n");
                 let mut p = Parameters::default();
                 for (n, k) in parts[2].split('+').enumerate() {
@@ -662,18 +708,24 @@ impl Inst {
             "dn" => {
                 // deletion records signed by the peer, received through synchronisation
                 let day: i64 = parts[1].parse().map_err(|_| "day")?;
-                let t = self.set_clock(day);
+                let t = self.set_clock(day % 100);
                 let mut entries = vec![];
                 for k in parts[2].split('+') {
                     let k: u64 = k.parse().map_err(|_| "key")?;
                     let id = *self.ids.get(&k).ok_or("unknown key")?;
-                    let room = self.room;
+                    let (r1, r2) = (self.room, self.room2);
                     let ent = self.entity_short.clone();
                     let node = self
-                        .read(move |conn| Node::get_in_room(&id, &room, &ent, conn).ok().flatten())
+                        .read(move |conn| {
+                            Node::get_in_room(&id, &r1, &ent, conn)
+                                .ok()
+                                .flatten()
+                                .or_else(|| Node::get_in_room(&id, &r2, &ent, conn).ok().flatten())
+                        })
                         .await
                         .ok_or("row to delete not found")?;
-                    entries.push(NodeDeletionEntry::build(self.room, &node, t, &self.peer));
+                    let room = node.room_id.ok_or("row without a room")?;
+                    entries.push(NodeDeletionEntry::build(room, &node, t, &self.peer));
                 }
                 let (tx, rx) = oneshot::channel();
                 let _ = self
@@ -960,29 +1012,31 @@ impl Inst {
     // -------------------------------------------------------------------------------- dumps
 
     pub async fn dump(&mut self) -> Dump {
-        let room = self.room;
+        let (room1, room2) = (self.room, self.room2);
         let ent = self.entity_short.clone();
+        type RowT = (Uid, Option<Uid>, String, i64);
         let (rows, tombs, edges, confs, rooms, log, sigs) = self
             .read(move |conn| {
-                let mut rows: Vec<(Uid, String, i64)> = vec![];
+                let mut rows: Vec<RowT> = vec![];
                 let mut st = conn
-                    .prepare("SELECT id, _json, mdate FROM _node WHERE room_id = ? AND _entity = ?")
+                    .prepare("SELECT id, room_id, _json, mdate FROM _node WHERE _entity = ? AND room_id IN (?, ?)")
                     .unwrap();
-                let mut q = st.query((room, &ent)).unwrap();
+                let mut q = st.query((&ent, room1, room2)).unwrap();
                 while let Some(r) = q.next().unwrap() {
                     rows.push((
                         r.get(0).unwrap(),
-                        r.get::<_, Option<String>>(1).unwrap().unwrap_or_default(),
-                        r.get(2).unwrap(),
+                        r.get(1).unwrap(),
+                        r.get::<_, Option<String>>(2).unwrap().unwrap_or_default(),
+                        r.get(3).unwrap(),
                     ));
                 }
-                let mut tombs: Vec<(Uid, i64)> = vec![];
+                let mut tombs: Vec<(Uid, i64, Uid)> = vec![];
                 let mut st = conn
-                    .prepare("SELECT id, deletion_date FROM _node_deletion_log WHERE room_id = ?")
+                    .prepare("SELECT id, deletion_date, room_id FROM _node_deletion_log WHERE room_id IN (?, ?)")
                     .unwrap();
-                let mut q = st.query([room]).unwrap();
+                let mut q = st.query((room1, room2)).unwrap();
                 while let Some(r) = q.next().unwrap() {
-                    tombs.push((r.get(0).unwrap(), r.get(1).unwrap()));
+                    tombs.push((r.get(0).unwrap(), r.get(1).unwrap(), r.get(2).unwrap()));
                 }
                 let mut edges: Vec<(Uid, Uid)> = vec![];
                 let mut st = conn.prepare("SELECT src, dest FROM _edge WHERE src_entity = ?").unwrap();
@@ -1006,40 +1060,44 @@ impl Inst {
                 while let Some(r) = q.next().unwrap() {
                     rooms.push(r.get(0).unwrap());
                 }
-                let mut log: Vec<(i64, u32, bool, Option<Vec<u8>>)> = vec![];
+                let mut log: Vec<(Uid, i64, u32, bool, Option<Vec<u8>>)> = vec![];
                 let mut st = conn
                     .prepare(
-                        "SELECT date, entry_number, need_recompute, daily_hash FROM _daily_log \
-                         WHERE room_id = ? AND entity = ? ORDER BY date",
+                        "SELECT room_id, date, entry_number, need_recompute, daily_hash FROM _daily_log \
+                         WHERE room_id IN (?, ?) AND entity = ? ORDER BY room_id, date",
                     )
                     .unwrap();
-                let mut q = st.query((room, &ent)).unwrap();
+                let mut q = st.query((room1, room2, &ent)).unwrap();
                 while let Some(r) = q.next().unwrap() {
                     log.push((
                         r.get(0).unwrap(),
                         r.get(1).unwrap(),
-                        r.get::<_, Option<bool>>(2).unwrap().unwrap_or(false),
-                        r.get(3).unwrap(),
+                        r.get(2).unwrap(),
+                        r.get::<_, Option<bool>>(3).unwrap().unwrap_or(false),
+                        r.get(4).unwrap(),
                     ));
                 }
-                // from-scratch content of every day: signatures of rows, row tombstones, reference tombstones
-                let mut sigs: Vec<(i64, Vec<u8>)> = vec![];
+                // from-scratch content of every (room, day): signatures of rows, row tombstones, reference tombstones
+                let mut sigs: Vec<(Uid, i64, Vec<u8>)> = vec![];
                 for sql in [
-                    "SELECT mdate, _signature FROM _node WHERE room_id = ?1 AND _entity = ?2",
-                    "SELECT deletion_date, signature FROM _node_deletion_log WHERE room_id = ?1 AND entity = ?2",
-                    "SELECT deletion_date, signature FROM _edge_deletion_log WHERE room_id = ?1 AND src_entity = ?2",
+                    "SELECT room_id, mdate, _signature FROM _node WHERE room_id IN (?1, ?2) AND _entity = ?3",
+                    "SELECT room_id, deletion_date, signature FROM _node_deletion_log WHERE room_id IN (?1, ?2) AND entity = ?3",
+                    "SELECT room_id, deletion_date, signature FROM _edge_deletion_log WHERE room_id IN (?1, ?2) AND src_entity = ?3",
                 ] {
                     let mut st = conn.prepare(sql).unwrap();
-                    let mut q = st.query((room, &ent)).unwrap();
+                    let mut q = st.query((room1, room2, &ent)).unwrap();
                     while let Some(r) = q.next().unwrap() {
-                        sigs.push((r.get(0).unwrap(), r.get(1).unwrap()));
+                        sigs.push((r.get(0).unwrap(), r.get(1).unwrap(), r.get(2).unwrap()));
                     }
                 }
                 (rows, tombs, edges, confs, rooms, log, sigs)
             })
             .await;
+        // a log key of the op files: 100 * (room index) + day
+        let key_of = |room: &Uid, t: i64| -> i64 { self.room_idx(room) * 100 + day_of(t) };
         let mut d = Dump::default();
-        for (id, json, mdate) in rows {
+        let mut learned: Vec<(u64, Uid)> = vec![];
+        for (id, room, json, mdate) in rows {
             let v: serde_json::Value = serde_json::from_str(&json).unwrap_or(serde_json::Value::Null);
             let (mut k, mut val, mut alt) = (u64::MAX, u64::MAX, String::new());
             if let Some(o) = v.as_object() {
@@ -1056,17 +1114,35 @@ impl Inst {
                 }
             }
             if !self.ids.contains_key(&k) || self.ids[&k] != id {
-                self.ids.insert(k, id);
-                self.keys.insert(id, k);
-                self.remember(format!("id {} {}", k, uid_encode(&id)));
+                learned.push((k, id));
             }
-            d.rows.push((k, val, day_of(mdate), alt));
+            d.rows.push((k, val, key_of(&room.unwrap_or([0u8; 16]), mdate), alt));
         }
         d.rows.sort();
-        for (id, dd) in tombs {
-            d.tombs.push((self.keys.get(&id).copied().unwrap_or(u64::MAX), day_of(dd)));
+        for (id, dd, room) in &tombs {
+            d.tombs.push((
+                self.keys
+                    .get(id)
+                    .copied()
+                    .or_else(|| learned.iter().find(|x| x.1 == *id).map(|x| x.0))
+                    .unwrap_or(u64::MAX),
+                key_of(room, *dd),
+            ));
         }
         d.tombs.sort();
+        let mut by_day: BTreeMap<i64, Vec<Vec<u8>>> = BTreeMap::new();
+        for (room, t, s) in sigs {
+            by_day.entry(key_of(&room, t)).or_default().push(s);
+        }
+        let log: Vec<(i64, u32, bool, Option<Vec<u8>>)> = log
+            .into_iter()
+            .map(|(room, date, n, dirty, hash)| (key_of(&room, date), n, dirty, hash))
+            .collect();
+        for (k, id) in learned {
+            self.ids.insert(k, id);
+            self.keys.insert(id, k);
+            self.remember(format!("id {} {}", k, uid_encode(&id)));
+        }
         for (s, t) in edges {
             d.aux.push(format!(
                 "e{}-{}",
@@ -1084,13 +1160,9 @@ impl Inst {
             }
         }
         d.aux.sort();
-        // independent from-scratch log
-        let mut by_day: BTreeMap<i64, Vec<Vec<u8>>> = BTreeMap::new();
-        for (t, s) in sigs {
-            by_day.entry(day_of(t)).or_default().push(s);
-        }
-        for (date, n, dirty, hash) in log {
-            let dd = day_of(date);
+        let mut log = log;
+        log.sort_by_key(|x| x.0);
+        for (dd, n, dirty, hash) in log {
             d.log.push((dd, n, dirty));
             if !dirty {
                 let mut sg = by_day.get(&dd).cloned().unwrap_or_default();
